@@ -7,6 +7,27 @@
 use alloc::string::{ToString, String};
 use crate::config::SmartCalcConfig;
  
+/* Case foldings that keep every byte offset of the original text valid */
+pub fn lowercase_keep_offsets(data: &str) -> String {
+    data.chars().map(|ch| {
+        let mut lower = ch.to_lowercase();
+        match (lower.next(), lower.next()) {
+            (Some(lower_ch), None) if lower_ch.len_utf8() == ch.len_utf8() => lower_ch,
+            _ => ch
+        }
+    }).collect()
+}
+
+pub fn uppercase_keep_offsets(data: &str) -> String {
+    data.chars().map(|ch| {
+        let mut upper = ch.to_uppercase();
+        match (upper.next(), upper.next()) {
+            (Some(upper_ch), None) if upper_ch.len_utf8() == ch.len_utf8() => upper_ch,
+            _ => ch
+        }
+    }).collect()
+}
+
 pub fn do_divition(left: f64, right: f64) -> f64 {
     let mut calculation = left / right;
     if calculation.is_infinite() || calculation.is_nan() {
